@@ -153,14 +153,17 @@ def _cyclic(n, edges):
     return _kahn_cyclic(n, edges)
 
 
-def _e2e_once(names, decl, bits, xs, fn_bits):
+def _e2e_once(names, decl, bits, xs, fn_bits, typed=()):
     """Build the parser, add the selected links, parse, instantiate, check. Returns True/Fail."""
     from jsonargparse import ArgumentParser
 
     classes = _make_classes(names)
     parser = ArgumentParser(exit_on_error=False)
     for name in decl:
-        parser.add_class_arguments(classes[name], name)
+        if name in typed:
+            parser.add_subclass_arguments(classes[name], name)  # a class_path component instead of a class group
+        else:
+            parser.add_class_arguments(classes[name], name)
     pairs = [(s, t) for s in names for t in names if s != t]
     edges = []
     for n, (s, t) in enumerate(pairs):
@@ -169,7 +172,8 @@ def _e2e_once(names, decl, bits, xs, fn_bits):
         would = edges + [(names.index(s), names.index(t))]
         cyc = _cyclic(len(names), would)
         try:
-            parser.link_arguments(f"{s}.out", f"{t}.y_{s}", compute_fn=_double if fn_bits[n] else None, apply_on="instantiate")
+            target = f"{t}.init_args.y_{s}" if t in typed else f"{t}.y_{s}"
+            parser.link_arguments(f"{s}.out", target, compute_fn=_double if fn_bits[n] else None, apply_on="instantiate")
             raised = False
         except ValueError:
             raised = True
@@ -180,7 +184,7 @@ def _e2e_once(names, decl, bits, xs, fn_bits):
             return True
         edges = would
     S.note(f"links={len(edges)}")
-    cfg = parser.parse_object({name: {"x": xs[name]} for name in names})
+    cfg = parser.parse_object({name: ({"class_path": f"{__name__}.K_{name}", "init_args": {"x": xs[name]}} if name in typed else {"x": xs[name]}) for name in names})
     del LOG[:]
     init = parser.instantiate_classes(cfg)
     built = [n for n, _ in LOG]
@@ -209,10 +213,11 @@ def _e2e_once(names, decl, bits, xs, fn_bits):
     return True
 
 
-def e2e(names, decl, shard=None, shard_bits=0, with_fn=False):
+def e2e(names, decl, shard=None, shard_bits=0, with_fn=False, typed=()):
     names = list(names)
     decl = list(decl)
-    _e2e_once(names, decl, [False] * 6, {n: 1 for n in names}, [False] * 6)  # warm-up (lazy registrations)
+    typed = tuple(typed)
+    _e2e_once(names, decl, [False] * 6, {n: 1 for n in names}, [False] * 6, typed)  # warm-up (lazy registrations)
     npairs = len(names) * (len(names) - 1)
 
     def harness():
@@ -223,13 +228,40 @@ def e2e(names, decl, shard=None, shard_bits=0, with_fn=False):
                 return None
         fn_bits = [(S.flag(f"fn{n}") if (with_fn and bits[n]) else False) for n in range(npairs)]
         xs = {n: S.int(f"x_{n}") for n in names}
-        return _e2e_once(names, decl, bits, xs, fn_bits)
+        return _e2e_once(names, decl, bits, xs, fn_bits, typed)
 
     return harness
 
 
 def replay_e2e(payload):
-    return native(_e2e_once, payload["names"], payload["decl"], payload["bits"], payload["xs"], payload["fn_bits"])
+    return native(_e2e_once, payload["names"], payload["decl"], payload["bits"], payload["xs"], payload["fn_bits"], tuple(payload.get("typed", ())))
+
+
+def self_links(payload):
+    """A link whose target parameter belongs to the component it is computed from is a cycle on its own."""
+    from jsonargparse import ArgumentParser
+
+    bad = []
+    cases = [("a.out", "a.y_b", None), ("a", "a.y_b", None), (("a.out", "b.out"), "b.y_a", lambda p, q: p), ("a.out", "a.init_args.y_b", "typed")]
+    for prior in (0, 1, 2):
+        for src, tgt, extra in cases:
+            classes = _make_classes(["a", "b", "c"])
+            parser = ArgumentParser(exit_on_error=False)
+            for name in ("a", "b", "c"):
+                if extra == "typed" and name == "a":
+                    parser.add_subclass_arguments(classes[name], name)
+                else:
+                    parser.add_class_arguments(classes[name], name)
+            if prior >= 1:
+                parser.link_arguments("b.out", "c.y_b", apply_on="instantiate")
+            if prior >= 2:
+                parser.link_arguments("c.x", "b.x")  # a parse link: does not count as an instantiate link
+            try:
+                parser.link_arguments(src, tgt, compute_fn=(extra if callable(extra) else None), apply_on="instantiate")
+                bad.append(f"link_arguments({src!r}, {tgt!r}) after {prior} other link(s)")
+            except ValueError:
+                pass
+    return dict(bad=bad, reproduced=bool(bad), detail=str(bad))
 
 
 # ------------------------------------------------------------------ main
@@ -261,9 +293,10 @@ def main(rep, tier):
         jobs.append(dict(module="c16", func="kernel", kwargs=dict(k=2), timeout=60))
         for sh in range(len(_patterns(3))):
             jobs.append(dict(module="c16", func="kernel", kwargs=dict(k=3, shard_labels=3, shard=sh), timeout=120))
-        for names, decl in ((("a", "b", "c"), ("a", "b", "c")), (("a", "ab", "c"), ("ab", "c", "a"))):
-            for sh in range(8):
-                jobs.append(dict(module="c16", func="e2e", kwargs=dict(names=names, decl=decl, shard=sh, shard_bits=3), timeout=240))
+        for names, decl, typed in ((("a", "b", "c"), ("a", "b", "c"), ()), (("a", "ab", "c"), ("ab", "c", "a"), ())):
+            nb = 4 if typed else 3
+            for sh in range(2 ** nb):
+                jobs.append(dict(module="c16", func="e2e", kwargs=dict(names=names, decl=decl, shard=sh, shard_bits=nb, typed=list(typed)), timeout=400))
     else:
         rep.bounds = dict(kernel_edges=4, kernel_nodes=8, e2e_components=3, e2e_link_graphs=64, e2e_decl_orders=6, compute_fn_subsets=True)
         jobs.append(dict(module="c16", func="kernel", kwargs=dict(k=1), timeout=60))
@@ -275,8 +308,17 @@ def main(rep, tier):
             for decl in itertools.permutations(names):
                 for sh in range(4):
                     jobs.append(dict(module="c16", func="e2e", kwargs=dict(names=names, decl=list(decl), shard=sh, shard_bits=2, with_fn=(decl == names)), timeout=900))
+    if tier == "thorough":
+        for sh in range(16):
+            jobs.append(dict(module="c16", func="e2e", kwargs=dict(names=["a", "b", "c"], decl=["c", "a", "b"], shard=sh, shard_bits=4, typed=["b"]), timeout=1800))
     results = run_jobs(jobs)
     fails = absorb(rep, results, require_tags=("cyclic", "acyclic", "cycle-rejected"))
+    # links that are a cycle by themselves must be refused when added, whatever was added before (concrete API facts)
+    bad = run_native("props.c16", "self_links", {}).get("bad", [])
+    rep.evaluations += 1
+    rep.extra["self_link_cases"] = bad or "all refused when added"
+    for b in bad:
+        rep.violation(f"self-loop link accepted: {b}", dict(module="props.c16", func="self_links", payload={}))
     for cls, samples in fails.items():
         s = samples[0]
         v = s["values"]
@@ -288,7 +330,7 @@ def main(rep, tier):
             rp = dict(module="props.c16", func="replay_kernel", payload=payload)
         else:
             names = s["kwargs"]["names"]
-            payload = dict(names=names, decl=s["kwargs"]["decl"], bits=_bits_from(v, "link", 6), fn_bits=_bits_from(v, "fn", 6),
+            payload = dict(names=names, decl=s["kwargs"]["decl"], typed=s["kwargs"].get("typed", []), bits=_bits_from(v, "link", 6), fn_bits=_bits_from(v, "fn", 6),
                            xs={n: v.get(f"x_{n}", 0) for n in names})
             # fn flags are created only for selected links, in order: re-map
             fn_vals = [val for key, val in v.items() if key.startswith("fn")]
